@@ -776,7 +776,7 @@ class C24(Check):
         history it is about to run and the partial result after each batch, so a dying child
         yields an attributed failure and loses one batch at most"""
         res = ShardResult()
-        nbatch, per, max_ops = (2, 300, 40) if tier == "quick" else (16, 1500, 60)
+        nbatch, per, max_ops = (2, 300, 40) if tier == "quick" else (12, 1200, 60)
 
         def batches():
             yield "sweep", [h for i, h in enumerate(sweep_histories()) if i % nshards == shard]
